@@ -169,7 +169,8 @@ pub fn weights(p: Profile) -> [u32; N_KINDS] {
         }
         Profile::Reads => {
             w[K_READ] = 90;
-            w[K_PARTITION] = 8;
+            w[K_PARTITION] = 14;
+            w[K_HEAL] = 8;
             w[K_DUP] = 40;
             w[K_CAMPAIGN] = 4;
             w[K_CONF] = 10;
@@ -231,6 +232,7 @@ pub struct ExecResult {
     pub trace: Vec<String>,
     pub desc: String,
     pub harness_error: Option<String>,
+    pub timed_out: bool,
 }
 
 pub struct Knobs {
@@ -684,7 +686,15 @@ impl Driver {
                 let spec = self.random_conf_spec();
                 Action::ProposeConf(v, spec)
             }
-            K_READ => Action::ReadIndex(self.pick_up_idle()?),
+            K_READ => {
+                // half of the reads go to a node that believes it leads (possibly a stale leader)
+                let v = if r.chance(1, 2) {
+                    self.pick_leader().or_else(|| self.pick_up_idle())?
+                } else {
+                    self.pick_up_idle()?
+                };
+                Action::ReadIndex(v)
+            }
             K_TRANSFER => {
                 let v = if r.chance(2, 3) {
                     self.pick_leader().or_else(|| self.pick_up_idle())?
@@ -765,9 +775,21 @@ impl Driver {
             }
             K_PARTITION => {
                 let mut mask = 0u64;
-                for id in 1..9u64 {
-                    if r.chance(1, 2) {
-                        mask |= 1 << id;
+                if r.chance(1, 2) {
+                    // a leader cut off together with at most one other node (stale-leader shape)
+                    if let Some(l) = self.pick_leader() {
+                        mask |= 1 << self.sim.nodes[l].id;
+                        if self.rng.chance(1, 2) {
+                            let o = self.rng.usize(n);
+                            mask |= 1 << self.sim.nodes[o].id;
+                        }
+                    }
+                }
+                if mask == 0 {
+                    for id in 1..9u64 {
+                        if self.rng.chance(1, 2) {
+                            mask |= 1 << id;
+                        }
                     }
                 }
                 Action::Partition(mask)
@@ -938,6 +960,99 @@ impl Driver {
         }
     }
 
+    /// Directed schedule for the "superseded leader" clause of C08: cut the leader (with at most
+    /// one companion) off, let the majority side elect a new leader and commit, then issue
+    /// reads on the stale leader while its side exchanges heartbeats. Only genuine library
+    /// traffic is involved; the minority's clocks simply run slow.
+    pub fn stale_leader_reads(&mut self) {
+        let l = match self.pick_leader() {
+            Some(l) => l,
+            None => return,
+        };
+        let lid = self.sim.nodes[l].id;
+        let voters: Vec<u64> = self.sim.nodes[l].conf.all_voters().into_iter().collect();
+        if voters.len() < 3 {
+            return;
+        }
+        let mut mask = 1u64 << lid;
+        let mut companion = None;
+        if self.rng.chance(2, 3) {
+            let others: Vec<u64> = voters.iter().cloned().filter(|x| *x != lid).collect();
+            let c = *self.rng.pick(&others);
+            // keep a majority on the other side
+            if voters.len() >= 4 {
+                mask |= 1 << c;
+                companion = self.sim.idx_of(c);
+            }
+        }
+        self.sim.exec(&Action::Partition(mask));
+        self.sim.mon.stats.inc("c08.stale_leader_scenarios");
+        let lcommit0 = self.sim.nodes[l].raw.as_ref().map(|r| r.raft.raft_log.committed).unwrap_or(0);
+        let et = self.knobs.election_tick;
+        let mut superseded = false;
+        for round in 0..(12 * et) {
+            if self.sim.aborted {
+                return;
+            }
+            for v in 0..self.n() {
+                let id = self.sim.nodes[v].id;
+                if mask >> id & 1 == 0 && self.sim.nodes[v].idle() {
+                    self.sim.exec(&Action::Tick(v));
+                }
+            }
+            self.drain(6);
+            // a new leader on the majority side that has committed beyond the old one?
+            let newl = (0..self.n()).find(|&v| {
+                let id = self.sim.nodes[v].id;
+                mask >> id & 1 == 0
+                    && self.sim.nodes[v].raw.as_ref().is_some_and(|r| {
+                        r.raft.state == StateRole::Leader && r.raft.raft_log.committed > lcommit0
+                    })
+            });
+            match newl {
+                Some(nl) if round % 2 == 0 => {
+                    if self.sim.nodes[nl].idle() {
+                        self.sim.exec(&Action::Propose(nl, 8));
+                    }
+                    superseded = true;
+                    if round > 4 * et {
+                        break;
+                    }
+                }
+                Some(_) => superseded = true,
+                None => {}
+            }
+        }
+        if !superseded {
+            self.sim.exec(&Action::Heal);
+            return;
+        }
+        self.sim.mon.stats.inc("c08.stale_leader_scenarios_superseded");
+        // reads on the stale leader (and through its companion), heartbeats within the minority
+        for k in 0..3 {
+            if self.sim.aborted {
+                return;
+            }
+            let still = self.sim.nodes[l].raw.as_ref().is_some_and(|r| r.raft.state == StateRole::Leader);
+            if !still {
+                break;
+            }
+            if self.sim.nodes[l].idle() {
+                self.sim.exec(&Action::ReadIndex(l));
+            }
+            if let Some(c) = companion {
+                if k == 1 && self.sim.nodes[c].idle() {
+                    self.sim.exec(&Action::ReadIndex(c));
+                }
+            }
+            self.drain(6);
+            if self.sim.nodes[l].idle() && k == 0 {
+                self.sim.exec(&Action::Tick(l));
+            }
+        }
+        self.sim.exec(&Action::Heal);
+    }
+
     pub fn finish(mut self, seed: u64) -> ExecResult {
         // final full verification of every shadow
         for v in 0..self.n() {
@@ -954,6 +1069,9 @@ impl Driver {
             });
         }
         stats.add("executions", 1);
+        if self.sim.timed_out {
+            stats.add("executions_stopped_by_watchdog", 1);
+        }
         ExecResult {
             seed,
             profile: self.profile,
@@ -979,13 +1097,19 @@ impl Driver {
                 self.sim.nodes.iter().map(|n| n.mode).collect::<Vec<_>>()
             ),
             harness_error: self.sim.harness_error.clone(),
+            timed_out: self.sim.timed_out,
         }
     }
 }
 
 /// One execution: alternating chaos and (for now unjudged) drain phases.
 pub fn run_exec(seed: u64, profile: Profile, actions: usize, trace_cap: usize) -> ExecResult {
+    run_exec_focus(seed, profile, actions, trace_cap, None)
+}
+
+pub fn run_exec_focus(seed: u64, profile: Profile, actions: usize, trace_cap: usize, focus: Option<&'static str>) -> ExecResult {
     let mut d = Driver::new(seed, profile, trace_cap);
+    d.sim.mon.focus = focus;
     if profile == Profile::Lockstep {
         let windows = 1 + actions / 600;
         crate::sim::lockstep::run_windows(&mut d, windows);
@@ -998,6 +1122,12 @@ pub fn run_exec(seed: u64, profile: Profile, actions: usize, trace_cap: usize) -
         left -= chunk;
         if d.sim.aborted {
             break;
+        }
+        if profile == Profile::Reads && d.rng.chance(1, 2) {
+            d.stale_leader_reads();
+            if d.sim.aborted {
+                break;
+            }
         }
         if d.rng.chance(1, 3) {
             crate::sim::settle::settle(&mut d);
